@@ -133,10 +133,13 @@ Exp(s, a) ==
       [] a.op = "erase"           -> ExpErase(s)
       [] a.op = "replace"         -> ExpReplace(s, a.toks[1])
       [] a.op = "gen"             -> Outcome("ok", {s}, FALSE)
+      [] a.op = "remove_absent"   -> Outcome("ok", {s}, FALSE)     \* removing an obstacle that is not contained: warning only
 KindOfOp == [remove_obstacle |-> ObsKinds, remove_sign |-> {"sign"}, remove_light |-> {"light"},
              remove_inter |-> {"inter"}, remove_lanelet |-> {"lanelet"}]
 PreOk(s, a) ==       \* what the drivers promise: removals name contained objects of the right kind
     IF a.op \in DOMAIN KindOfOp
     THEN SeqSet(a.toks) # {} /\ SeqSet(a.toks) \subseteq s.C /\ \A n \in SeqSet(a.toks) : Tok[n].k \in KindOfOp[a.op]
+    ELSE IF a.op = "remove_absent"
+    THEN SeqSet(a.toks) # {} /\ SeqSet(a.toks) \cap s.C = {} /\ \A n \in SeqSet(a.toks) : Tok[n].k \in ObsKinds
     ELSE TRUE
 ===================================================================================
